@@ -57,6 +57,13 @@ def generate(rng):
             events.insert(i, shadow)       # shadow listed first: it wins
         else:
             events.insert(i + 1, shadow)   # listed after: never fires
+    if events and rng.random() < 0.2:
+        # the same pattern listed twice with different responses (e.g. the caller's entries in front of defaults):
+        # the first listed one answers every occurrence
+        e = rng.choice([x for x in events])
+        dup = {'pat': e['pat'], 'tok': e['tok'], 'resp': {'kind': 'str', 'v': 'dup-%s\n' % e['tok'][:2]}, 'dup': True}
+        events.append(dup)
+        scn['as'] = 'list'
     if rng.random() < 0.35:
         events.insert(rng.randint(0, len(events)), {'pat': 'TIMEOUT', 'resp': {'kind': 'fn', 'ret': rng.choice(['none', 'none', 'true'])}})
     if rng.random() < 0.25:
